@@ -26,6 +26,7 @@ RULE = ('the same input grids as C06 and C11, sent to a persistent node process 
 ASSUMPTIONS = ['shared domain: decimal-digit numeric strings both languages define (no Python-only literals such as 1_0, inf, Unicode digits); '
                'm:ss texts only for running events',
                'functions outside the listed pairs (highjump.js, uka_agegroups.js, checkPerformanceForDiscipline) are not compared']
+RULE = RULE + '; Tyrving and QuadKids also under caller spellings of event / gender / competition type x every carrier incl. minute forms; round-up with explicit maxDP'
 
 
 def same(py, js):
